@@ -112,6 +112,10 @@ func (m *CubicallyInterpolatedMapping) approximateInverseLog(x float64) float64 
 		// x is so close below an integer that the significand rounded up to 2
 		exponent++
 		significandPlusOne = 1
+	} else if significandPlusOne < 1 {
+		// x is so close above an integer that rounding errors in the formula above made the
+		// significand fall just below 1 (buildFloat64 would then read it as almost 2)
+		significandPlusOne = 1
 	}
 	return buildFloat64(int(exponent), significandPlusOne)
 }
